@@ -43,6 +43,7 @@ type ContCase struct {
 	Workers   int
 	Limit     uint32 // collision limit (0 = leave default)
 	SetLimit  bool
+	DrainAtEnd bool // after the phases: remove every element one by one (no bulk pop), then regrow a little
 	Temp      bool // root at the temporary address
 	Final     func(w *World, root *Node, res *CaseResult)
 	PerOp     func(w *World, root *Node) error
@@ -147,6 +148,44 @@ func runContainerCase(c *CaseCtx, cc *ContCase) (*CaseResult, *World, *Node) {
 				} else if cc.EvictEvery > 0 && ncommit%cc.EvictEvery == 0 {
 					w.DropCache()
 				}
+			}
+		}
+	}
+	if cc.DrainAtEnd {
+		// Emptying by single removals: every merge / borrow / root demotion on the way down to one empty slab happens
+		// inside a Remove (the drain phase of the standard histories usually ends in a bulk pop or before the tree is empty).
+		w.logOp("-- drain by single removals")
+		for guard := 0; guard < 200000; guard++ {
+			var err error
+			if root.Kind == KArr {
+				if len(root.Elems) == 0 {
+					break
+				}
+				err = w.OpArrayRemove(root, w.pickIndex(root, false, w.bounds))
+			} else {
+				k := w.existingKey(root)
+				if k == nil {
+					break
+				}
+				err = w.OpMapRemove(root, k)
+			}
+			if err == nil {
+				err = w.AfterOp()
+			}
+			if err == nil && cc.PerOp != nil {
+				err = cc.PerOp(w, root)
+			}
+			if err != nil {
+				return finish(err)
+			}
+		}
+		w.stats.Extra["drains-by-single-removals"]++
+		for i := 0; i < 40; i++ {
+			if err := w.Step(root, PhaseGrow, &hist); err != nil {
+				return finish(err)
+			}
+			if err := w.AfterOp(); err != nil {
+				return finish(err)
 			}
 		}
 	}
@@ -320,6 +359,7 @@ func basicCase(c *CaseCtx, kind string) *ContCase {
 		cc.CommitEvery = 9
 	}
 	cc.Relaxed = r.Intn(3) == 0
+	cc.DrainAtEnd = c.Case%3 == 0
 	return cc
 }
 
